@@ -231,6 +231,51 @@ func genCtx(o *Out, tier string, r *Rng) {
 				steps = append(steps, "u0", "a"+strconv.Itoa(r.Intn(base))+":0")
 			}
 		}
+		if r.Chance(25) {
+			// toggle pattern: the SAME create / power-levels / join-rules event object is present, then absent (nothing of
+			// its type in the provider), then present again, with the same events checked after each refresh — a checker
+			// that remembers "already parsed" by object identity must notice the gap
+			pool := append([]*Ev{}, provs[0]...)
+			for _, p := range provs[1:] {
+				pool = append(pool, p...)
+			}
+			typ := Pick(r, []string{spec.MRoomPowerLevels, spec.MRoomCreate, spec.MRoomJoinRules})
+			toggled := -1
+			for pi, e := range pool {
+				if e.PDU.Type() == typ && e.PDU.StateKeyEquals("") {
+					toggled = pi
+					break
+				}
+			}
+			if toggled >= 0 {
+				base := len(evs)
+				evs = append(evs, pool...)
+				steps = []string{"u0"}
+				checks := []int{r.Intn(base), r.Intn(base), r.Intn(base)}
+				for _, present := range []bool{true, false, true, true, false, true} {
+					steps = append(steps, "c0")
+					seen := map[string]bool{}
+					for pi, e := range pool {
+						if e.PDU.Type() == typ {
+							continue
+						}
+						k := e.PDU.Type() + "\x00" + *e.PDU.StateKey()
+						if !seen[k] {
+							seen[k] = true
+							steps = append(steps, "m0:"+strconv.Itoa(base+pi))
+						}
+					}
+					if present {
+						steps = append(steps, "m0:"+strconv.Itoa(base+toggled))
+					}
+					steps = append(steps, "u0")
+					for _, c := range checks {
+						steps = append(steps, "a"+strconv.Itoa(c)+":0")
+					}
+				}
+				o.Count("pattern.toggle." + typ)
+			}
+		}
 		var ps []string
 		for _, p := range provs {
 			ps = append(ps, evArgs(p))
